@@ -70,7 +70,7 @@ fn gen_value_refs(rng: &mut Rng, k: usize) -> Pair {
     }
     let t = spell(rng, "Tgt", k, true);
     let nn = spell(rng, "Named", k, true);
-    let form = rng.below(12);
+    let form = rng.below(16);
     let (s, e) = match form {
         0 => (format!("{t} ::= INTEGER (0..{})\n", names[0]), format!("{t} ::= INTEGER (0..{lit})\n")),
         // the reference is the only one of the definition and stands in a later operand / in the lower bound only
@@ -88,6 +88,24 @@ fn gen_value_refs(rng: &mut Rng, k: usize) -> Pair {
                 format!("{nn} ::= INTEGER {{ low(1), high({lit}) }}\n{vn} {nn} ::= high\n{t} ::= {nn} (0..{vn})\n"),
                 format!("{nn} ::= INTEGER {{ low(1), high({lit}) }}\n{vn} {nn} ::= high\n{t} ::= {nn} (0..{lit})\n"),
             )
+        }
+        // the type's own named numbers in every operand of a constraint of three and four operands, next to values of
+        // the module that are called the same (the named numbers win, X.680 19.8)
+        12..=15 => {
+            let other = lit + 1000;
+            let decoys = format!("hi INTEGER ::= {other}\nmid INTEGER ::= {}\nlo INTEGER ::= {}\n", other + 1, other + 2);
+            let nums = format!("{{ lo(1), mid(5), hi({lit}) }}");
+            let (c_s, c_e) = match form {
+                12 => ("(lo | mid | hi)".to_string(), format!("(1 | 5 | {lit})")),
+                13 => ("(lo..mid | hi | 1000)".to_string(), format!("(1..5 | {lit} | 1000)")),
+                14 => ("(lo..hi ^ mid..hi ^ lo..hi)".to_string(), format!("(1..{lit} ^ 5..{lit} ^ 1..{lit})")),
+                _ => ("(0 | lo | mid | hi)".to_string(), format!("(0 | 1 | 5 | {lit})")),
+            };
+            if k % 2 == 0 {
+                (format!("{decoys}{t} ::= INTEGER {nums} {c_s}\n"), format!("{decoys}{t} ::= INTEGER {nums} {c_e}\n"))
+            } else {
+                (format!("{decoys}{t} ::= SEQUENCE {{ f INTEGER {nums} {c_s} }}\n"), format!("{decoys}{t} ::= SEQUENCE {{ f INTEGER {nums} {c_e} }}\n"))
+            }
         }
         1 => (format!("{t} ::= OCTET STRING (SIZE (1..{}))\n", names[0]), format!("{t} ::= OCTET STRING (SIZE (1..{lit}))\n")),
         2 => {
@@ -283,8 +301,19 @@ fn gen_selection(rng: &mut Rng, k: usize) -> Pair {
     let pick = rng.below(n_alt);
     let sel = spell(rng, "Sel", k, true);
     let holder = spell(rng, "Hold", k, true);
-    let (s, e) = if rng.chance(1, 2) {
+    let form = rng.below(3);
+    let (s, e) = if form == 0 {
         (format!("{sel} ::= alt{pick} < {cho}\n"), format!("{sel} ::= {}\n", alt_types[pick]))
+    } else if form == 1 {
+        // tagged, under every tagging default: the tag is implicit / explicit as it is for the selected alternative's type
+        // (a selection type is not a CHOICE), as component and as alternative
+        let t = &alt_types[pick];
+        let sel_t = format!("alt{pick} < {cho}");
+        let shape = |x: &str| format!("{sel} ::= SEQUENCE {{ p [0] {x}, q [1] IMPLICIT {x}, r [2] EXPLICIT {x}, s [APPLICATION 3] {x} OPTIONAL }}\n{holder} ::= CHOICE {{ p [0] {x}, q [1] IMPLICIT {x}, r [2] EXPLICIT {x} }}\n");
+        let hdr = ["EXPLICIT TAGS", "IMPLICIT TAGS", "AUTOMATIC TAGS", ""][k % 4];
+        let before = rng.chance(1, 2);
+        let sug = if before { format!("{choice}{}", shape(&sel_t)) } else { format!("{}{choice}", shape(&sel_t)) };
+        return Pair { kind: "selection:tagged".into(), sugared: module_h("Sug", hdr, &sug), expanded: module_h("Sug", hdr, &format!("{choice}{}", shape(t))), targets: vec![sel, holder], env: vec![] };
     } else {
         (format!("{sel} ::= alt{pick} < {cho}\n{holder} ::= SEQUENCE {{ a alt{pick} < {cho}, b BOOLEAN }}\n"), format!("{sel} ::= {}\n{holder} ::= SEQUENCE {{ a {}, b BOOLEAN }}\n", alt_types[pick], alt_types[pick]))
     };
@@ -308,8 +337,18 @@ fn gen_class_field(rng: &mut Rng, k: usize) -> Pair {
     let pick = rng.below(n_fields);
     let tgt = spell(rng, "Fld", k, true);
     let holder = spell(rng, "Hld", k, true);
-    let s = format!("{tgt} ::= {cls}.&fix{pick}\n{holder} ::= SEQUENCE {{ h1 {cls}.&fix{pick}, h2 {cls}.&fix0 OPTIONAL }}\n");
-    let e = format!("{tgt} ::= {}\n{holder} ::= SEQUENCE {{ h1 {}, h2 {} OPTIONAL }}\n", tys[pick], tys[pick], tys[0]);
+    // the holder: SEQUENCE, SET, CHOICE, and the field as the element of a list (member and top level), next to a
+    // tagged, constrained neighbour
+    let shape = |a: &str, b: &str| match k % 6 {
+        0 => format!("SEQUENCE {{ h1 {a}, h2 {b} OPTIONAL }}"),
+        1 => format!("SET {{ h1 {a}, h2 {b} OPTIONAL, n [5] INTEGER (0..7) }}"),
+        2 => format!("CHOICE {{ h1 [1] {a}, h2 [2] {b}, n [5] INTEGER (0..7) }}"),
+        3 => format!("SEQUENCE {{ l SEQUENCE OF {a}, m SET OF {b} }}"),
+        4 => format!("SEQUENCE OF SEQUENCE {{ h1 {a} }}"),
+        _ => format!("SET {{ inner [0] SET {{ h1 {a} }}, c CHOICE {{ x [3] {b}, y [4] NULL }} }}"),
+    };
+    let s = format!("{tgt} ::= {cls}.&fix{pick}\n{holder} ::= {}\n", shape(&format!("{cls}.&fix{pick}"), &format!("{cls}.&fix0")));
+    let e = format!("{tgt} ::= {}\n{holder} ::= {}\n", tys[pick], shape(tys[pick], tys[0]));
     let before = rng.chance(1, 2);
     let sug = if before { format!("{class}{s}") } else { format!("{s}{class}") };
     Pair { kind: "class-field".into(), sugared: module("Sug", &sug), expanded: module("Sug", &format!("{class}{e}")), targets: vec![tgt, holder], env: vec![] }
